@@ -1701,7 +1701,7 @@ fn main() {
     sink.note("grid_reinclude", &format!("re-included transactions stored under a new block={} fresh-import comparisons={} signable-root comparisons={}", reinc.0, reinc.1, reinc.2));
 
     // ---- generated histories -------------------------------------------------------------------
-    let n = args.extra.get("n").and_then(|x| x.parse().ok()).unwrap_or(if args.thorough() { 9_000 } else { 800 });
+    let n = args.extra.get("n").and_then(|x| x.parse().ok()).unwrap_or(if args.thorough() { 6_000 } else { 800 });
     let mut letters: BTreeMap<char, u64> = BTreeMap::new();
     let (mut s1, mut s2, mut tainted) = (0u64, 0u64, 0u64);
     let (mut reincluded, mut reinc_hist) = (0u64, 0u64);
